@@ -13,7 +13,11 @@ FAM_DESC = {
     "mini": "GF(T=1,N=2,R=2,L=2,B=5)", "minie": "GF(1,2,2,2,5)+error",
     "q": "GF(T=2,N=2,R=3,L=2,B=7)", "qe": "GF(2,2,3,2,7)+error", "t1": "GF(2,2,4,3,9)", "t2": "GF(2,3,4,2,9)",
     "cur": "curated grammars (harness/curated.hpp)", "q3": "GF(2,2,2,3,7)", "q3e": "GF(2,2,2,3,7)+error",
+    "ch3": "CH(3): S : z Ni ti for every ordered non-empty subset of N1..N3, Ni : ci and/or Ni : Nj in both orders, rule groups in every order; inputs z cj ti",
+    "ch4": "CH(4), own/unit order chosen once for all nonterminals; inputs z cj ti",
+    "ch4s": "CH(4) with the start rules S : z N1 t1 | .. | z N4 t4 only; inputs z cj ti",
 }
+CHFL = ["--la", "0,1,2", "--one", "1", "--cost", "0", "--rec", "0"]
 
 TRUST = [
     "reference model harness/ref.hpp (span fixpoint + plain recursion), self-checked on closed-form facts",
@@ -36,19 +40,21 @@ def plan(prop, tier):
     if prop == "C01":
         jobs = [gram("C01", "q", "c", "q", 4 if q else 6, []),
                 gram("C01", "cur", "c", "cur", 5 if q else 7, [], shards=4),
-                gram("C01", "q-asan", "c-asan", "mini", 4, ["--fresh"])]
+                gram("C01", "q-asan", "c-asan", "mini", 4, ["--fresh"]),
+                gram("C01", "ch4s", "c", "ch4s", 3, CHFL)]
         if not q:
             jobs += [gram("C01", "qe", "c", "qe", 5, []), gram("C01", "t1", "c", "t1", 5, []),
                      gram("C01", "t2", "c", "t2", 5, ["--one", "0,1", "--cost", "0"]),
                      gram("C01", "q-ov1", "c", "q", 5, ["--ovs", "1"]),
+                     gram("C01", "ch3", "c", "ch3", 3, CHFL), gram("C01", "ch4", "c", "ch4", 3, CHFL),
                      gram("C01", "q-perm", "c", "q", 5, ["--ovs", "101,102,103,104,105", "--la", "1,2"]),
                      gram("C01", "t2-perm", "c", "t2", 5, ["--ovs", ",".join(str(100 + k) for k in range(1, 24)), "--la", "1", "--one", "1", "--cost", "0", "--rec", "0"])]
         P = dict(base, jobs=jobs, nontrivial_key="inputs_sentence",
-                 rule="every canonical grammar of the family accepted by yaep_read_grammar x every token string of length <= n over its terminals x 24 flag vectors (lookahead 0..2 x one_parse x cost x recovery); oracle: reference span-fixpoint recogniser; distinct_nontrivial = distinct (grammar,input) pairs that are sentences",
+                 rule="every canonical grammar of the family accepted by yaep_read_grammar x every token string of length <= n over its terminals x 24 flag vectors (lookahead 0..2 x one_parse x cost x recovery); the chain families CH(k) (declaration-order sensitive FIRST/FOLLOW fixpoints) with their own inputs; thorough: rule order reversed per lhs and the first 5 (q) / 23 (t2) permutations of the rule list; oracle: reference span-fixpoint recogniser; distinct_nontrivial = distinct (grammar,input) pairs that are sentences",
                  bounds={"families": [FAM_DESC[j.args[2]] for j in jobs], "max_input_length": 4 if q else 6, "flag_vectors": 24},
                  require={"parses": 100000, "inputs_sentence": 1000, "inputs_nonsentence": 1000})
     elif prop in ("C02", "C03", "C05"):
-        fl = {"C02": ["--one", "1", "--cost", "0"], "C03": ["--one", "0", "--cost", "0", "--rec", "1"], "C05": ["--rec", "1"]}[prop]
+        fl = {"C02": ["--one", "1", "--cost", "0,1"], "C03": ["--one", "0", "--cost", "0", "--rec", "1"], "C05": ["--rec", "1"]}[prop]
         jobs = [gram(prop, "q-vary", "c", "q", 4 if q else 5, ["--tm", "vary"] + fl),
                 gram(prop, "cur", "c", "cur", 6 if q else 8, fl, shards=4),
                 gram(prop, "q3-vary", "c", "q3", 5, ["--tm", "vary"] + fl),
@@ -195,8 +201,13 @@ def plan(prop, tier):
                  bounds={"scenarios": 23, "faults_per_scenario": "all k up to the fault-free request count"}, require={"fault_runs": 500, "faults_fired": 500})
     elif prop == "C10":
         jobs = [Job("def", "c", ["def"] + ([] if q else ["--thorough"]), NPROC), Job("def-asan", "c-asan", ["def", "--sample", "97"], NPROC)]
-        P = dict(base, jobs=jobs, states_key="definitions", transitions_key="definitions", nontrivial_key="nontrivial_rejections",
-                 rule="product of terminal lists (<= 2 terminals over names {a,b,error,$S,$eof} x codes {-1,0,1,300}) x rule lists (0 rules; 1 rule from the full menu lhs{S,A,a,error,$S} x rhs over {a,b,S,A,error,$eof} of length <= 2 x 17 translation/abstract-node/cost forms; 2 rules from reduced menus) x strict{0,1}; oracle: reference well-formedness WF = set of documented defects present; rc = 0 iff WF empty, rc in WF otherwise; then error code/message, parse refuses, a good definition afterwards behaves as on a fresh object; distinct_nontrivial = rejected descriptions",
+        # verdict of the grammar analysis on generated grammars (fixpoints sensitive to declaration order)
+        gfl = ["--la", "1", "--one", "1", "--cost", "0", "--rec", "0"]
+        jobs += [gram("C10", "gram-" + f, "c", f, 0, gfl) for f in (["q", "t2", "ch3", "ch4s"] if q else ["q", "qe", "t1", "t2", "ch3", "ch4"])]
+        if not q:
+            jobs += [gram("C10", "gram-t2-perm", "c", "t2", 0, gfl + ["--ovs", ",".join(str(100 + k) for k in range(1, 24))])]
+        P = dict(base, jobs=jobs, states_key="definitions", transitions_key="definitions", nontrivial_key="nontrivial_rejections", deadline_s=540 if q else 3000,
+                 rule="product of terminal lists (<= 2 terminals over names {a,b,error,$S,$eof} x codes {-1,0,1,300}) x rule lists (0 rules; 1 rule from the full menu lhs{S,A,a,error,$S} x rhs over {a,b,S,A,error,$eof} of length <= 2 x 17 translation/abstract-node/cost forms; 2 rules from reduced menus: quick 2 forms for the first rule and a short rhs menu for the second, thorough every lhs x rhs shape with 3 (first rule) x 4 (second rule) translation forms) x strict{0,1}; oracle: reference well-formedness WF = set of documented defects present; rc = 0 iff WF empty, rc in WF otherwise; then error code/message, parse refuses, a good definition afterwards behaves as on a fresh object; plus the same verdict oracle (loops, productivity, accessibility; strict and not) on every grammar of the generated families GF(...) and CH(k) fed through the callbacks; distinct_nontrivial = rejected descriptions",
                  bounds={"terminals": 2, "rules": 2, "rhs_length": 2, "quick_reduces_pair_menus": q},
                  require={"definitions": 100000, "accepted": 1000, "rejected": 1000, "rc_LOOP_NONTERM": 10, "rc_UNACCESSIBLE_NONTERM": 10, "rc_REPEATED_SYMBOL_NUMBER": 10})
     elif prop in ("C14", "C15"):
